@@ -285,6 +285,16 @@ impl GarbleProgram {
         };
         let literal = Literal::parse(&self.program, &param.ty, literal)
             .map_err(EvalError::LiteralParseError)?;
+        // The checker accepts more than can be encoded for this parameter (a range without a
+        // type suffix keeps 32-bit elements, a struct literal may name a field twice): apply
+        // the same type test as `literal_arg` and `Evaluator::parse_literal` do.
+        let ty = resolve_const_type(&param.ty, &self.const_sizes);
+        if !literal.is_of_type(&self.program, &ty) {
+            return Err(EvalError::InvalidLiteralType(
+                Box::new(literal),
+                Box::new(ty),
+            ));
+        }
         Ok(GarbleArgument(literal, &self.program, &self.const_sizes))
     }
 
